@@ -891,6 +891,24 @@ def gen_two_prints(r):
     episode open, retraction owed, deferred command pending); the second must start clean"""
     st0 = rand_settings(r)
     ops = []
+
+    def settings_history():
+        # settings saved and saved again (scripts set, then cleared; deferred codes changed): only the
+        # latest values count
+        if r.random() < 0.35:
+            s1 = rand_settings(r)
+            if r.random() < 0.6:
+                s1["cfg"]["enter"] = ["M117 in"]
+                s1["cfg"]["exit"] = ["M117 out"]
+            ops.append(("save", s1))
+            if r.random() < 0.6:
+                s2 = rand_settings(r)
+                if r.random() < 0.7:
+                    s2["cfg"]["enter"] = None
+                if r.random() < 0.7:
+                    s2["cfg"]["exit"] = None
+                ops.append(("save", s2))
+    settings_history()
     if r.random() < 0.7:
         ops.append(("api", False, "addExcludeRegion",
                     {"type": "RectangularRegion", "x1": 10.0, "y1": 10.0, "x2": 20.0, "y2": 20.0, "id": "a"}))
@@ -928,14 +946,16 @@ def gen_two_prints(r):
             ops.append(("gcode", c, impl.split_cmd(c)[0]))
     if r.random() < 0.8:
         ops.append(("event", r.choice(["PRINT_DONE", "PRINT_FAILED", "PRINT_CANCELLED", "PRINT_CANCELLING"])))
-        if r.random() < 0.3:
-            # the hook invoked after the print has ended (possibly with an episode still open)
-            ops.append(("script", "gcode", "afterPrintDone"))
+        if r.random() < 0.5:
+            # a hook invoked after the print has ended (possibly with an episode still open)
+            ops.append(("script", "gcode", r.choice(["afterPrintDone", "afterPrintDone", "afterPrintCancelled",
+                                                     "afterPrintPaused", "beforePrintStarted", "beforePrintResumed"])))
     # else: the job is started again without any end event in between (e.g. a paused job restarted)
     if r.random() < 0.4:
         # between the prints nothing is filtered or tracked, whatever state the first print ended in
         for c in r.sample(["G1 X50 Y50 F3000", "G1 X15 Y15", "G1 E5", "M117 idle", "G28"], r.randint(1, 3)):
             ops.append(("gcode", c, impl.split_cmd(c)[0]))
+    settings_history()
     if r.random() < 0.3:
         ops.append(("api", False, "addExcludeRegion",
                     {"type": "RectangularRegion", "x1": 10.0, "y1": 10.0, "x2": 20.0, "y2": 20.0, "id": "b"}))
@@ -955,16 +975,46 @@ def gen_two_prints(r):
             ops += [("event", "PRINT_PAUSED"), ("event", "PRINT_RESUMED")]      # do not end the print
         ops.append(("gcode", c, impl.split_cmd(c)[0]))
     if r.random() < 0.3:
-        ops.append(("script", r.choice(["gcode", "code", ""]), r.choice(["afterPrint", "Done", ""])))
+        ops.append(("script", r.choice(["gcode", "gcode", "code", ""]),
+                    r.choice(["afterPrint", "Done", "", "afterPrintCancelled", "afterPrintPaused", "beforePrintStarted"])))
     ops.append(("script", "gcode", "afterPrintDone"))
     if r.random() < 0.3:
         ops.append(("script", "gcode", "afterPrintDone"))
     return plugin_case(ops, st0)
 
 
+def gen_stale_episode(r):
+    """a print that ends while an episode is open; afterwards every hook is offered, for every script
+    name: none of them may contribute or track anything while no print is active"""
+    st0 = rand_settings(r)
+    if r.random() < 0.7:
+        st0["clear"] = False
+        st0["raw"] = {}
+    ops = [("api", False, "addExcludeRegion",
+            {"type": "RectangularRegion", "x1": 10.0, "y1": 10.0, "x2": 20.0, "y2": 20.0, "id": "a"}),
+           start_event(r)]
+    for c in ["G28", "G1 X5 Y5 Z0.2 F3000", "G1 X6 Y5 E1"] + r.choice([["G1 X15 Y15"], ["G1 X15 Y15 E2", "M117 hi"],
+                                                                         ["G1 X15 Y15", "G1 E0 F1800"]]):
+        ops.append(("gcode", c, impl.split_cmd(c)[0]))
+    ops.append(("event", r.choice(["PRINT_CANCELLING", "PRINT_CANCELLED", "PRINT_FAILED", "PRINT_DONE", "ERROR"])))
+    names = ["afterPrintCancelled", "afterPrintDone", "afterPrintFailed", "afterPrintPaused", "beforePrintResumed",
+             "beforePrintStarted", "afterPrinterConnected"]
+    r.shuffle(names)
+    for nm in names[:r.randint(2, 5)]:
+        ops.append(("script", r.choice(["gcode", "gcode", "gcode", "code"]), nm))
+        if r.random() < 0.3:
+            c = r.choice(["G1 X30 Y30", "G1 X16 Y16 E3", "M117 idle"])
+            ops.append(("gcode", c, impl.split_cmd(c)[0]))
+    ops.append(("get",))
+    return plugin_case(ops, st0)
+
+
 def gen_plugin_case(r):
-    if r.random() < 0.3:
+    k0 = r.random()
+    if k0 < 0.3:
         return gen_two_prints(r)
+    if k0 < 0.38:
+        return gen_stale_episode(r)
     st0 = rand_settings(r)
     ops = []
     ids = ["a", "b", "c", ""]          # "" : a falsy id is an id like any other
